@@ -6,6 +6,9 @@
 //!   to happen in a prescribed total order (`gate` before the step, `done` after it has taken
 //!   effect), and every step is logged with a sequence number taken under the same lock (`mark`).
 //!
+//! * Node events: after `record_nodes(true)` the tree search appends one record per step of a node
+//!   (entry, early returns, moves made, child results, line updates, return) to a buffer that the
+//!   harness collects with `take_nodes()`.
 //! * Limits of a `go`: with `TCHERAN_VERIF_GOLIMITS=<file>` every `go` appends one line with what the
 //!   command carried and the limits the time strategy computed from it (`note_go`).
 //!
@@ -217,4 +220,38 @@ pub fn note_go(n: &GoNote) {
         n.limits.1.as_nanos(),
     );
     let _ = g.flush();
+}
+
+/// One step of a node of the tree search (`kind` names the step, `v` carries its numbers).
+#[derive(Clone, Debug)]
+pub struct NodeEvent {
+    pub kind: &'static str,
+    pub ply: u8,
+    pub v: [i32; 3],
+    pub moves: Vec<crate::chess::moves::Move>,
+}
+
+static RECORD_NODES: std::sync::atomic::AtomicBool = std::sync::atomic::AtomicBool::new(false);
+static NODE_EVENTS: Mutex<Vec<NodeEvent>> = Mutex::new(Vec::new());
+
+pub fn record_nodes(on: bool) {
+    RECORD_NODES.store(on, Ordering::SeqCst);
+}
+
+pub fn take_nodes() -> Vec<NodeEvent> {
+    std::mem::take(&mut *NODE_EVENTS.lock().unwrap())
+}
+
+#[inline]
+pub fn node(kind: &'static str, ply: u8, v: [i32; 3], moves: &[crate::chess::moves::Move]) {
+    if !RECORD_NODES.load(Ordering::Relaxed) {
+        return;
+    }
+
+    NODE_EVENTS.lock().unwrap().push(NodeEvent {
+        kind,
+        ply,
+        v,
+        moves: moves.to_vec(),
+    });
 }
